@@ -97,7 +97,7 @@ theorem step_spec (s : St) (hf : Free s) (ev : Ev) : step specOffFacts s ev = st
       | none => simp [spawn, specOffFacts, hc, hb]
       | some c =>
         by_cases hp : s.permits < c
-        · simp [hp, spawn, specOffFacts, hc, hb]
+        · simp [hp, spawn, specOffFacts]
         · simp only [hp, if_false]
           cases hn : a.notify <;> simp [specOffFacts, push]
   | exit id k =>
@@ -183,7 +183,7 @@ theorem stepSpec_inv (s : St) (hi : Inv s) (ev : Ev) : Inv (stepSpec s ev) := by
       cases hcap : s.cap with
       | none =>
         rw [hcap] at hc
-        simp only [hcap]
+        skip
         refine ⟨hc.1, ?_⟩
         intro r hr
         rcases List.mem_append.mp hr with hr | hr
@@ -194,13 +194,13 @@ theorem stepSpec_inv (s : St) (hi : Inv s) (ev : Ev) : Inv (stepSpec s ev) := by
         obtain ⟨h1, h2, h3⟩ := hc
         simp only
         by_cases hp : s.permits < c
-        · simp only [hp, if_true, hcap]
+        · simp only [hp, if_true]
           refine ⟨by simp [h1], by simp; omega, ?_⟩
           intro r hr
           rcases List.mem_append.mp hr with hr | hr
           · exact h3 r hr
           · simp at hr; subst hr; rfl
-        · simp only [hp, if_false, push_cap, push_permits, push_running, hcap]
+        · simp only [hp, if_false, push_cap, push_permits, push_running]
           exact ⟨h1, h2, h3⟩
   | exit id k =>
     simp only [stepSpec]
